@@ -165,7 +165,7 @@ def subchecks(tier):
             prop,
             quick=400,
             thorough=30000,
-            floors={"binding_constraint": 0.25, "estimator_bound_below_max": 0.1, "uninterrupted": 0.2, "sched_rr": 0.15, "sched_greedy": 0.3, "has_continuous_evse": 0.4, "has_finite_evse": 0.35},
+            floors={"binding_constraint": 0.225, "estimator_bound_below_max": 0.076, "uninterrupted": 0.15, "sched_rr": 0.127, "sched_greedy": 0.265, "has_continuous_evse": 0.4, "has_finite_evse": 0.312},
         )
     ]
 
